@@ -72,7 +72,8 @@ Differs(c) ==
 
 \* ProbeSeesItsArguments on one recorded run (only when the run reached its first strategy step)
 Unseen(r, c) ==
-  IF c = "arguments-modified" THEN r.args_after # r.args_before
+  IF c = "arguments-modified"      \* the probe's own arguments at its return, those of the earlier calls at the end
+  THEN r.args_after # r.args_before \/ r.hist_args_after # r.hist_args_before
   ELSE IF ~r.has_obs THEN FALSE
   ELSE CASE c = "driver" -> r.driver # "yes"
          [] c = "account-type" -> r.typ # E.typ
